@@ -33,7 +33,13 @@ Step(q) ==
            cls |-> IF ok THEN PlanClass(q.an, q.sS, q.sR) ELSE "na",
            table |-> IF ok THEN ClassTable(q.an, q.sS, q.sR) ELSE "na",
            cls0 |-> PlanClass(q.an, q.sS0, q.sR0),
-           keys |-> [i \in 1..Len(q.keys) |-> KeyInfo(q, q.keys[i])]]
+           keys |-> [i \in 1..Len(q.keys) |-> KeyInfo(q, q.keys[i])],
+           \* what the access-plan model says reaches the core from the SAMPLE's stored columns: factor core / stored
+           deliv |-> IF ~ok THEN {} ELSE
+                     LET p == Plan(q.an, q.sS, q.sR)  ev == Evals(q.an, q.sS, q.sR) IN
+                     {[slot |-> p[i].slot, col |-> IF OutL(p[i].acc) THEN "loading" ELSE "pressure",
+                       vec |-> Pairs(Phys(Minus(ev[i].out, IF OutL(p[i].acc) THEN ColL(q.sS) ELSE ColP(q.sS))))] :
+                        i \in {j \in 1..Len(p) : p[j].role = "S" /\ ~InP(p[j].acc) /\ ~InL(p[j].acc) /\ ev[j].ok}}]
 
 ASSUME JsonSerialize(IOEnv.X_OUT, [i \in 1..Len(Q) |-> Step(Q[i])])
 VARIABLE x
